@@ -42,4 +42,21 @@ def run_cases(ctx, prefix):
     for d in rep["disagreements"]:
         if d["sig"].startswith(prefix + ":"):
             ctx.disagreement(d["sig"], d["detail"], d["case"])
+    # the same under concurrency: first use of each type by several goroutines at the same instant, in fresh processes
+    crep = concurrent(ctx, cases, prefix, thorough)
+    for k, v in crep.items():
+        mine[k] = mine.get(k, 0) + v
     return mc, rep, ncases, mine
+
+
+def concurrent(ctx, cases, prefix, thorough, kinds=("marshal", "decode", "process-died")):
+    rep = C.run_harness_phase(ctx, ["codecconc", "-cases", cases, "-children", "40" if thorough else "10", "-per", "60"],
+                              prefix + ":process-died:first-use-under-concurrency", "codec under concurrent first use", timeout=1800)
+    out = {}
+    for d in (rep or {}).get("disagreements", []):
+        rest = d["sig"].split(":", 1)[1]
+        if any(k in rest for k in kinds):
+            sig = prefix + ":" + rest
+            out[sig] = out.get(sig, 0) + 1
+            ctx.disagreement(sig, d["detail"], d["case"])
+    return out
